@@ -271,3 +271,83 @@ def split_part(e):
             if p.k == "call" and (p.x["path"].endswith("::split_last_mut") or p.x["path"].endswith("::split_last")):
                 return p.x["site"], int(e.x["name"]), p
     return None
+
+
+# ---------------------------------------------------------------------------------------
+# REL: comparisons on byte strings and the branches they steer
+
+CMP_LAST = {"eq": "==", "ne": "!=", "lt": "<", "le": "<=", "gt": ">", "ge": ">=", "cmp": "cmp", "partial_cmp": "cmp", "starts_with": "starts_with"}
+FLIP = {"<": ">", "<=": ">=", ">": "<", ">=": "<=", "==": "==", "!=": "!=", "cmp": "cmp-rev"}
+BINCMP = {"Eq": "==", "Ne": "!=", "Lt": "<", "Le": "<=", "Gt": ">", "Ge": ">="}
+
+
+def bool_edges(body, value_site=None, value_expr_pred=None):
+    """find the switch that branches on the boolean produced at `value_site` (a call site or an
+    assign site), looking through one `Not`. Returns (switch_bb, true_target, false_target)."""
+    for bb in sorted(body.normal_blocks()):
+        t = body.term(bb)
+        if t["t"] != "switch":
+            continue
+        e = body.expr_of_operand(t["discr"], Site(bb, None))
+        neg = False
+        if e.k == "un" and e.x["op"] == "Not":
+            neg = True
+            e = e.a[0]
+        hit = False
+        if value_site is not None and e.x.get("site") == value_site:
+            hit = True
+        if value_expr_pred is not None and value_expr_pred(e):
+            hit = True
+        if not hit:
+            continue
+        zero = [tb for v, tb in t["arms"] if int(v) == 0]
+        if not zero:
+            continue
+        f_t, t_t = zero[0], t["otherwise"]
+        if neg:
+            f_t, t_t = t_t, f_t
+        return bb, t_t, f_t
+    return None
+
+
+def diverges(body, bb):
+    """no Return is reachable from bb along normal edges (the edge leads to a panic)"""
+    if body.term(bb)["t"] == "return":
+        return False
+    return not any(body.term(x)["t"] == "return" for x in body.reachable_from(bb))
+
+
+def byte_comparisons(body):
+    """every comparison call whose operands are byte strings / keys: list of dicts
+    {site, op, a, b, callee}"""
+    out = []
+    for site, c, t in body.calls():
+        if c is None:
+            continue
+        n = callee_name(c)
+        last = n.rsplit("::", 1)[-1]
+        if last not in CMP_LAST:
+            continue
+        if not any(x in n for x in ("PartialOrd", "PartialEq", "Ord", "cmp::", "slice::")) and last != "starts_with":
+            continue
+        args = body.arg_exprs(site)
+        tys = [op["pl"]["ty"] if op["k"] in ("copy", "move") else op.get("ty", "") for op in t["args"]]
+        if not any("[u8]" in ty or "Vec<u8>" in ty for ty in tys):
+            continue
+        out.append({"site": site, "op": CMP_LAST[last], "a": args[0], "b": args[1], "callee": n, "tys": tys})
+    return out
+
+
+def reachable_without(body, banned_edges=(), banned_blocks=(), start=0):
+    banned_edges = set(banned_edges)
+    banned_blocks = set(banned_blocks)
+    seen = {start}
+    work = [start]
+    while work:
+        b = work.pop()
+        for s in body.succs(b):
+            if (b, s) in banned_edges or s in banned_blocks or s in seen:
+                continue
+            seen.add(s)
+            work.append(s)
+    return seen
